@@ -6,5 +6,5 @@ cd /verif
 : > "$out"
 run() { d=$1; id=$(basename $d); props=$(python3 -c "import json;m=json.load(open('$d/meta.json'));print(' '.join(dict.fromkeys([m['breaks_property']]+m.get('caught_by',[]))))"); r=$(PAR=2 tools/trymut.sh $d/patch.diff $props 2>&1 | cut -c1-220); echo "== $id [$props]"; echo "$r"; }
 export -f run
-ls -d seeded/*/ | xargs -P 4 -I{} bash -c 'run {}' >> "$out" 2>&1
+ls -d seeded/*/ | xargs -P 6 -I{} bash -c 'run {}' >> "$out" 2>&1
 echo ALLDONE >> "$out"
